@@ -135,6 +135,19 @@ def handle_violations(work, drive, prop, out, invariants):
             os.remove(replay_path)
             print("note: %s fails at %s also without the interleaved read-only calls (%s): a wrong result, but not an effect "
                   "of queries - outside C15" % (inv, describe_line(seg), st2), flush=True)
+            # the digest clauses proper (queries, failed deletes, overwrites leave the structure alone) are judged on their own
+            for v in validate_many(work, out.trace_files, ["Inv_C15"]):
+                if v.error:
+                    raise Infra("trace validation: " + v.error)
+                if v.invariant:
+                    seg2 = extract_segment(v.file, v.line)
+                    rp2 = save_replay(prop, seg2)
+                    s3, _ = confirm(work, drive, rp2, ["Inv_C15"])
+                    if s3 in ("confirmed", "crash"):
+                        print("VIOLATION property=%s replay=%s" % (prop, rp2), flush=True)
+                        print("  invariant Inv_C15 fails at: %s" % describe_line(seg2), flush=True)
+                        return 1, known
+                    os.remove(rp2)
             return 0, known
     if status in ("confirmed", "crash"):
         print("VIOLATION property=%s replay=%s" % (prop, replay_path), flush=True)
@@ -381,6 +394,7 @@ def coll_stages(tier, battery, n=None, ln=None):
     # strings of 1000+ characters: sort keys longer than the collator buffer's inline array
     st.append(Stage("random", "collation/string/und", "textlong", "q", battery, n=(2 if q else 8), len=(24 if q else 50), batevery=4, dumpevery=6))
     st.append(Stage("model", "collation/string/und", "textcase", "q", battery))
+    st.append(Stage("model", "collation/string/und", "textskip", "q", battery))
     # absent keys whose sort keys end around the depth an optimistic skip arrives at
     for k in (["collation/string/und"] if q else ["collation/string/und", "collation/bytes/sv", "collation/runes/und"]):
         st.append(Stage("random", k, "textrep", "q", battery, n=(8 if q else 24), len=(30 if q else 60), batevery=3, dumpevery=5))
